@@ -95,7 +95,7 @@ func runOverlapCase(c OverlapCase) *failure {
 		cfg := hybrid.DefaultConfig()
 		cfg.EnablePersistent = true
 		st := hybrid.NewWithSharedCache(ctx, memory.New(ctx), slowShared{redisB.clients[i], g}, pers, cfg)
-		s, err := miniserver.New(miniserver.Options{Storage: st, NodeID: fmt.Sprintf("node-%d", i+1), NoSecurityGate: true, ConnStateTTL: 30 * time.Second})
+		s, err := miniserver.New(miniserver.Options{Storage: st, NodeID: fmt.Sprintf("node-%d", i+1), NoSecurityGate: true, ConnStateTTL: time.Hour}) // the lifetime is not the subject here
 		if err != nil {
 			panic("C08 harness: miniserver.New: " + err.Error())
 		}
